@@ -54,13 +54,36 @@ fn report(run: &Run, sig: &str, case: impl FnOnce() -> serde_json::Value, detail
 const SIG_TAGGED_MAP: &str = "C05:tag-on-mapping-payload-ignored";
 const SIG_TAGGED_NULL: &str = "C05:tagged-newtype-payload:plain-null-read-as-string";
 
-fn options() -> serde_saphyr::Options {
-    serde_saphyr::Options::default()
+/// Option vectors crossed into the workloads. The statement's clauses apply under each of them;
+/// only the duplicate-key clause changes its answer (see `interp::Dup`).
+const OPT_NAMES: [&str; 4] = ["default", "strict_booleans+no_schema", "duplicate_keys=LastWins", "duplicate_keys=FirstWins"];
+
+fn options(ov: usize) -> serde_saphyr::Options {
+    let mut o = serde_saphyr::Options::default();
+    #[allow(deprecated)]
+    match ov {
+        1 => {
+            o.strict_booleans = true;
+            o.no_schema = true;
+        }
+        2 => o.duplicate_keys = serde_saphyr::DuplicateKeyPolicy::LastWins,
+        3 => o.duplicate_keys = serde_saphyr::DuplicateKeyPolicy::FirstWins,
+        _ => {}
+    }
+    o
 }
 
-fn run_seed(ty: &Ty, doc: &str) -> Result<Result<TVal, serde_saphyr::Error>, String> {
+fn dup_of(ov: usize) -> interp::Dup {
+    match ov {
+        2 => interp::Dup::Last,
+        3 => interp::Dup::First,
+        _ => interp::Dup::Error,
+    }
+}
+
+fn run_seed(ty: &Ty, doc: &str, ov: usize) -> Result<Result<TVal, serde_saphyr::Error>, String> {
     vcore::obs::catch(|| {
-        serde_saphyr::with_deserializer_from_str_with_options(doc, options(), |de| SchemaSeed(ty).deserialize(de))
+        serde_saphyr::with_deserializer_from_str_with_options(doc, options(ov), |de| SchemaSeed(ty).deserialize(de))
     })
 }
 
@@ -68,7 +91,9 @@ fn run_seed(ty: &Ty, doc: &str) -> Result<Result<TVal, serde_saphyr::Error>, Str
 
 #[derive(Default)]
 struct LeafOracle {
-    cache: HashMap<(String, String, u8, Option<String>), Expect>,
+    cache: HashMap<(String, String, u8, Option<String>, u8), Expect>,
+    /// option vector the scalars are read under (set by the caller before each case)
+    ov: usize,
     calls: u64,
     panics: Vec<(String, String)>,
 }
@@ -79,7 +104,7 @@ fn style_of(s: ScalarStyle) -> Style {
 
 impl Leaf for LeafOracle {
     fn leaf(&mut self, ty: &Ty, value: &str, style: ScalarStyle, tag: Option<&str>) -> Expect {
-        let key = (format!("{ty:?}"), value.to_string(), reftree::style_char(style) as u8, tag.map(|s| s.to_string()));
+        let key = (format!("{ty:?}"), value.to_string(), reftree::style_char(style) as u8, tag.map(|s| s.to_string()), self.ov as u8);
         if let Some(e) = self.cache.get(&key) {
             return e.clone();
         }
@@ -93,7 +118,7 @@ impl Leaf for LeafOracle {
             Expect::Unspecified("leaf-document-not-confirmed-by-parser")
         } else {
             self.calls += 1;
-            match run_seed(ty, &text) {
+            match run_seed(ty, &text, self.ov) {
                 Ok(Ok(v)) => Expect::MustBe(v),
                 Ok(Err(_)) => Expect::MustErr("scalar-rejected-for-type"),
                 Err(p) => {
@@ -217,6 +242,11 @@ struct CaseMeta<'a> {
     exact: bool,
     flow: bool,
     part: &'static str,
+    /// option vector (index into OPT_NAMES)
+    ov: usize,
+    /// stable hash and depth of the type (computed once per type)
+    ty_hash: u64,
+    ty_depth: usize,
 }
 
 enum Runner<'a> {
@@ -225,21 +255,48 @@ enum Runner<'a> {
 }
 
 /// Judge one (type, document) pair. Returns false if the case was not evaluated.
-fn check_pair(run: &Run, lo: &mut LeafOracle, loc: &mut Local, ty: &Ty, doc: &str, runner: &Runner, meta: &CaseMeta) -> bool {
+#[allow(clippy::too_many_arguments)]
+fn check_pair(
+    run: &Run,
+    lo: &mut LeafOracle,
+    loc: &mut Local,
+    ty: &Ty,
+    doc: &str,
+    pre: Option<&RNode>,
+    runner: &Runner,
+    meta: &CaseMeta,
+) -> bool {
+    let ov = meta.ov;
     let case = || {
         json!({
-            "ty": ty.to_json(), "ty_text": ty.to_string(), "doc": doc, "mode": meta.mode,
+            "ty": ty.to_json(), "ty_text": ty.to_string(), "doc": doc, "mode": meta.mode, "options": OPT_NAMES[ov], "ov": ov,
             "edit": meta.edit.map(|e| e.label()), "flow": meta.flow, "part": meta.part,
         })
     };
     let t0 = std::time::Instant::now();
-    let Some(rnode) = reftree::parse_one(doc) else {
-        run.inconclusive("generator-invalid: document is not one parser-confirmed document");
-        return false;
+    let parsed;
+    let rnode: &RNode = match pre {
+        Some(r) => r,
+        None => {
+            let Some(r) = reftree::parse_one(doc) else {
+                run.inconclusive("generator-invalid: document is not one parser-confirmed document");
+                return false;
+            };
+            parsed = r;
+            &parsed
+        }
     };
     let t1 = std::time::Instant::now();
-    let mut ip = Interp { leaf: lo, bare_nonunit_seen: false, tagged_null_payload_seen: false, tagged_map_payload_seen: false, tail_ctx: None };
-    let expect = ip.interp(ty, &rnode);
+    lo.ov = ov;
+    let mut ip = Interp {
+        leaf: lo,
+        dup: dup_of(ov),
+        bare_nonunit_seen: false,
+        tagged_null_payload_seen: false,
+        tagged_map_payload_seen: false,
+        tail_ctx: None,
+    };
+    let expect = ip.interp(ty, rnode);
     let t2 = std::time::Instant::now();
     loc.add("time_us/raw_parse", (t1 - t0).as_micros() as u64);
     loc.add("time_us/interp_and_leaf_oracle", (t2 - t1).as_micros() as u64);
@@ -270,6 +327,7 @@ fn check_pair(run: &Run, lo: &mut LeafOracle, loc: &mut Local, ty: &Ty, doc: &st
     // soundness guards on my own generator/model
     if meta.exact
         && let Expect::MustErr(r) = &expect
+        && *r != "scalar-rejected-for-type"
     {
         run.inconclusive(&format!("model disagreement: exact document judged MustErr({r})"));
         return false;
@@ -285,8 +343,8 @@ fn check_pair(run: &Run, lo: &mut LeafOracle, loc: &mut Local, ty: &Ty, doc: &st
     loc.count(&format!("part/{}", meta.part));
     let t3 = std::time::Instant::now();
     let actual = match runner {
-        Runner::Seed => run_seed(ty, doc),
-        Runner::Derived(d) => vcore::obs::catch(|| (d.run)(doc)),
+        Runner::Seed => run_seed(ty, doc, ov),
+        Runner::Derived(d) => vcore::obs::catch(|| (d.run)(doc, options(ov))),
     };
     loc.add("time_us/library_call", t3.elapsed().as_micros() as u64);
     let actual = match actual {
@@ -297,9 +355,9 @@ fn check_pair(run: &Run, lo: &mut LeafOracle, loc: &mut Local, ty: &Ty, doc: &st
         Ok(a) => a,
     };
     let sorted = matches!(runner, Runner::Derived(_));
-    if sorted {
+    if matches!(runner, Runner::Derived(d) if !d.buffered) {
         // harness soundness guard: the dynamic seed must behave like the derived code on the same input
-        match (run_seed(ty, doc), &actual) {
+        match (run_seed(ty, doc, ov), &actual) {
             (Ok(Ok(a)), Ok(b)) if a.sorted_maps() == b.sorted_maps() => loc.count("seed_vs_derive/agree:value"),
             (Ok(Err(_)), Err(_)) => loc.count("seed_vs_derive/agree:error"),
             _ => {
@@ -357,8 +415,8 @@ fn check_pair(run: &Run, lo: &mut LeafOracle, loc: &mut Local, ty: &Ty, doc: &st
             loc.count("verdict/unspecified-bounded");
         }
     }
-    if ty.depth() >= 2 {
-        run.nontrivial(fnv_parts(&[format!("{ty:?}").as_bytes(), doc.as_bytes(), meta.mode.as_bytes()]));
+    if meta.ty_depth >= 2 {
+        run.nontrivial(fnv_parts(&[&meta.ty_hash.to_le_bytes(), doc.as_bytes(), meta.mode.as_bytes(), &[ov as u8]]));
     }
     true
 }
@@ -486,6 +544,7 @@ fn check_notations(
     payload: &Node,
     ctx: usize,
     flow: bool,
+    ov: usize,
     ro: &RenderOpts,
     part: &'static str,
 ) {
@@ -510,7 +569,7 @@ fn check_notations(
         2 => (Ty::map(Ty::Str, enum_ty.clone()), Box::new(|n| Node::map(vec![(Node::plain("k1"), n)]))),
         _ => (Ty::Tuple(vec![enum_ty.clone(), Ty::I32]), Box::new(|n| Node::seq(vec![n, Node::plain("1777")]))),
     };
-    let (Some(dt), Some(dm)) = (render(&wrap(tagged), flow, ro), render(&wrap(mapped), flow, ro)) else {
+    let (Some((dt, rt)), Some((dm, rm))) = (render(&wrap(tagged), flow, ro), render(&wrap(mapped), flow, ro)) else {
         if std::env::var("C05_DEBUG").is_ok() {
             let mut t = wrap(payload.clone().with_tag(&format!("!{vname}")));
             t.set_flow(flow);
@@ -531,19 +590,20 @@ fn check_notations(
     };
     let pclass = payload_class(payload);
     // each notation against the reference interpreter
-    for d in [&dt, &dm] {
-        let meta = CaseMeta { mode: "seed", edit: None, intent: None, exact: false, flow, part };
-        check_pair(run, lo, loc, &ty, d, &Runner::Seed, &meta);
+    let (ty_hash, ty_depth) = ty_id(&ty);
+    for (d, r) in [(&dt, &rt), (&dm, &rm)] {
+        let meta = CaseMeta { mode: "seed", edit: None, intent: None, exact: false, flow, part, ov, ty_hash, ty_depth };
+        check_pair(run, lo, loc, &ty, d, Some(r), &Runner::Seed, &meta);
     }
     // the two notations against each other
     run.evals(2);
-    let (a, b) = match (run_seed(&ty, &dt), run_seed(&ty, &dm)) {
+    let (a, b) = match (run_seed(&ty, &dt, ov), run_seed(&ty, &dm, ov)) {
         (Ok(a), Ok(b)) => (a, b),
         _ => return, // panics were reported by check_pair
     };
     let case = || {
         json!({"ty": ty.to_json(), "ty_text": ty.to_string(), "doc": dt, "doc_map_notation": dm, "mode": "seed",
-               "part": part, "flow": flow, "relation": "tag-notation == map-notation"})
+               "part": part, "flow": flow, "options": OPT_NAMES[ov], "ov": ov, "relation": "tag-notation == map-notation"})
     };
     let shape = match (&a, &b) {
         (Ok(x), Ok(y)) if x == y => {
@@ -578,53 +638,115 @@ fn check_notations(
 
 // ------------------------------------------------------------------ workloads
 
-fn render(n: &Node, flow: bool, ro: &RenderOpts) -> Option<String> {
+fn render(n: &Node, flow: bool, ro: &RenderOpts) -> Option<(String, RNode)> {
     let mut t = n.clone();
     t.set_flow(flow);
-    reftree::render_checked(&t, ro).map(|(s, _)| s)
+    reftree::render_checked(&t, ro)
+}
+
+fn ty_id(ty: &Ty) -> (u64, usize) {
+    (vcore::rng::fnv(format!("{ty:?}").as_bytes()), ty.depth())
+}
+
+struct TapeCfg<'a> {
+    rich: bool,
+    max_len: usize,
+    /// anchors/aliases and merge keys woven into the documents
+    aliases: bool,
+    merges: bool,
+    flows: &'a [bool],
+    ro: &'a RenderOpts,
+    runner: &'a Runner<'a>,
+    mode: &'a str,
+    part: &'static str,
+    /// option vectors every document is read under
+    ovs: &'a [usize],
+    /// additional option vectors for duplicate-key / duplicate-field edits
+    dup_ovs: &'a [usize],
+    sample_every: u64,
+}
+
+impl TapeCfg<'_> {
+    fn builder<'c>(&self, ch: &'c mut Chooser) -> Builder<'c> {
+        let mut b = Builder::new(ch, self.rich, self.max_len);
+        b.aliases = self.aliases;
+        b.merges = self.merges;
+        b
+    }
 }
 
 /// Build the exact document for the current tape, then every (or a sample of) single edits.
-#[allow(clippy::too_many_arguments)]
 fn run_tape(
     run: &Run,
     lo: &mut LeafOracle,
     loc: &mut Local,
     ty: &Ty,
     ch: &mut Chooser,
-    rich: bool,
-    max_len: usize,
-    flows: &[bool],
-    ro: &RenderOpts,
-    runner: &Runner,
-    mode: &str,
-    part: &'static str,
+    cfg: &TapeCfg,
     mut pick_edits: impl FnMut(usize) -> Option<Vec<usize>>,
-    sample_every: u64,
 ) {
+    let (ty_hash, ty_depth) = ty_id(ty);
     ch.rewind();
-    let (exact, sites) = {
-        let mut b = Builder::new(ch, rich, max_len);
+    let (exact, sites, features) = {
+        let mut b = cfg.builder(ch);
         let n = b.build(ty);
-        (n, b.sites)
+        (n, b.sites, (b.aliases_made, b.merges_made))
     };
     for s in &sites {
         loc.observe("sites", format!("{}@{}", s.kind, s.parent));
     }
-    for &flow in flows {
-        match render(&exact, flow, ro) {
-            None => run.inconclusive("generator-invalid: exact document not parsed as intended"),
-            Some(doc) => {
-                let meta = CaseMeta { mode, edit: None, intent: None, exact: true, flow, part };
-                if check_pair(run, lo, loc, ty, &doc, runner, &meta) {
-                    loc.count(if flow { "cases/exact:flow" } else { "cases/exact:block" });
-                    if sample_every > 0 && fnv_parts(&[doc.as_bytes()]) % sample_every == 0 {
-                        run.sample(|| json!({"ty": ty.to_string(), "doc": doc, "edit": null, "mode": mode}));
+    loc.add("docs/aliases_woven_in", features.0 as u64);
+    loc.add("docs/merge_keys_woven_in", features.1 as u64);
+    let judge = |loc: &mut Local, lo: &mut LeafOracle, node: &Node, edit: Option<(&Edit, Intent)>, site: Option<&docgen::Site>| {
+        for &flow in cfg.flows {
+            let Some((doc, rnode)) = render(node, flow, cfg.ro) else {
+                if let Some((e, _)) = edit {
+                    loc.count(&format!("generator_invalid_by_edit/{}", e.class()));
+                }
+                run.inconclusive("generator-invalid: document not parsed as intended");
+                continue;
+            };
+            let is_dup = matches!(edit, Some((Edit::DuplicateField(_) | Edit::DuplicateKey, _)));
+            let extra: &[usize] = if is_dup { cfg.dup_ovs } else { &[] };
+            for &ov in cfg.ovs.iter().chain(extra.iter().filter(|o| !cfg.ovs.contains(o))) {
+                // under FirstWins / LastWins a duplicate is not (always) an error
+                let intent = match edit {
+                    Some(_) if is_dup && ov >= 2 => Some(Intent::Any),
+                    Some((_, i)) => Some(i),
+                    None => None,
+                };
+                let meta = CaseMeta {
+                    mode: cfg.mode,
+                    edit: edit.map(|(e, _)| e),
+                    intent,
+                    exact: edit.is_none(),
+                    flow,
+                    part: cfg.part,
+                    ov,
+                    ty_hash,
+                    ty_depth,
+                };
+                if check_pair(run, lo, loc, ty, &doc, Some(&rnode), cfg.runner, &meta) {
+                    match edit {
+                        None => loc.count(if flow { "cases/exact:flow" } else { "cases/exact:block" }),
+                        Some((e, _)) => {
+                            loc.count(&format!("cases/edit:{}", e.class()));
+                            if let Some(st) = site {
+                                loc.observe("edit_at", format!("{}:{}@{}", e.class(), st.kind, st.parent));
+                            }
+                        }
+                    }
+                    loc.count(&format!("cases/options:{}", OPT_NAMES[ov]));
+                    if cfg.sample_every > 0 && fnv_parts(&[doc.as_bytes()]) % cfg.sample_every == 0 {
+                        run.sample(|| {
+                            json!({"ty": ty.to_string(), "doc": doc, "edit": edit.map(|(e, _)| e.label()), "mode": cfg.mode, "options": OPT_NAMES[ov]})
+                        });
                     }
                 }
             }
         }
-    }
+    };
+    judge(loc, lo, &exact, None, None);
     // flat list of (site, edit index)
     let mut all: Vec<(usize, usize)> = Vec::new();
     for (si, s) in sites.iter().enumerate() {
@@ -642,7 +764,7 @@ fn run_tape(
         ch.rewind();
         ch.frozen = true;
         let (node, applied) = {
-            let mut b = Builder::new(ch, rich, max_len);
+            let mut b = cfg.builder(ch);
             b.edit = Some((si, edit.clone()));
             let n = b.build(ty);
             (n, b.edit_applied)
@@ -652,24 +774,7 @@ fn run_tape(
             run.inconclusive("generator-invalid: edit site not reached on rebuild");
             continue;
         }
-        for &flow in flows {
-            match render(&node, flow, ro) {
-                None => {
-                    loc.count(&format!("generator_invalid_by_edit/{}", edit.class()));
-                    run.inconclusive("generator-invalid: edited document not parsed as intended");
-                }
-                Some(doc) => {
-                    let meta = CaseMeta { mode, edit: Some(&edit), intent: Some(intent), exact: false, flow, part };
-                    if check_pair(run, lo, loc, ty, &doc, runner, &meta) {
-                        loc.count(&format!("cases/edit:{}", edit.class()));
-                        loc.observe("edit_at", format!("{}:{}@{}", edit.class(), sites[si].kind, sites[si].parent));
-                        if sample_every > 0 && fnv_parts(&[doc.as_bytes()]) % sample_every == 0 {
-                            run.sample(|| json!({"ty": ty.to_string(), "doc": doc, "edit": edit.label(), "mode": mode}));
-                        }
-                    }
-                }
-            }
-        }
+        judge(loc, lo, &node, Some((&edit, intent)), Some(&sites[si]));
     }
 }
 
@@ -687,8 +792,25 @@ fn main() {
         };
         let mut lo = LeafOracle::default();
         let mut loc = Local::default();
-        let meta = CaseMeta { mode: &mode, edit: None, intent: None, exact: false, flow: false, part: "replay" };
-        check_pair(&run, &mut lo, &mut loc, &ty, &doc, &runner, &meta);
+        let ov = case["ov"].as_u64().unwrap_or(0) as usize % OPT_NAMES.len();
+        let (ty_hash, ty_depth) = ty_id(&ty);
+        let meta =
+            CaseMeta { mode: &mode, edit: None, intent: None, exact: false, flow: false, part: "replay", ov, ty_hash, ty_depth };
+        check_pair(&run, &mut lo, &mut loc, &ty, &doc, None, &runner, &meta);
+        if let Some(dm) = case["doc_map_notation"].as_str() {
+            // notation-agreement case: re-run the relation itself
+            let (a, b) = (run_seed(&ty, &doc, ov), run_seed(&ty, dm, ov));
+            if let (Ok(a), Ok(b)) = (a, b) {
+                let same = match (&a, &b) {
+                    (Ok(x), Ok(y)) => x == y,
+                    (Err(_), Err(_)) => true,
+                    _ => false,
+                };
+                if !same {
+                    run.violation(rep["signature"].as_str().unwrap_or("C05:notations-disagree"), case.clone(), "notations disagree");
+                }
+            }
+        }
         run.finish(Finish::new("replay"));
     }
 
@@ -722,23 +844,55 @@ fn main() {
     if !only.is_empty() {
         run.note(format!("debug run: only parts {only} executed (C05_ONLY)"));
     }
-    // ---- part A: exhaustive small schemas x all documents x all single edits
-    let max_nodes = tier.pick(3, 4);
-    let tys = ty::small_tys(max_nodes, &TyGrammar::small());
-    run.count("exhaustive/types", tys.len() as u64);
     let truncated = std::sync::atomic::AtomicU64::new(0);
-    // cost estimate per type (number of cases), biggest first, so the long ones start early
-    let order: Vec<usize> = {
+    let seed_runner = Runner::Seed;
+
+    // ---- parts A: exhaustive small schemas x all documents x all single edits
+    // (name, grammar, max nodes, aliases+merges woven in, flows)
+    let small = TyGrammar::small();
+    let full = TyGrammar::full();
+    let nodes_override: Vec<usize> =
+        std::env::var("C05_NODES").map(|v| v.split(',').filter_map(|x| x.parse().ok()).collect()).unwrap_or_default();
+    if !nodes_override.is_empty() {
+        run.note(format!("debug run: node bounds overridden by C05_NODES={nodes_override:?}"));
+    }
+    let nb = |i: usize, d: usize| nodes_override.get(i).copied().unwrap_or(d);
+    let spaces: Vec<(&'static str, &TyGrammar, usize, bool, &[bool])> = vec![
+        ("A1", &small, nb(0, tier.pick(4, 4)), false, &[false, true]),
+        ("A2", &full, nb(1, tier.pick(3, 4)), false, &[false, true]),
+        ("A3", &small, nb(2, tier.pick(3, 4)), true, &[false]),
+    ];
+    let mut scope_lines = Vec::new();
+    for (name, grammar, max_nodes, woven, flows) in &spaces {
+        if !part_on(name) {
+            continue;
+        }
+        let tys = ty::small_tys(*max_nodes, grammar);
+        run.count(&format!("exhaustive/{name}/types"), tys.len() as u64);
+        let cfg = TapeCfg {
+            rich: false,
+            max_len: 2,
+            aliases: *woven,
+            merges: *woven,
+            flows,
+            ro: &ro,
+            runner: &seed_runner,
+            mode: "seed",
+            part: name,
+            ovs: &[0],
+            dup_ovs: &[2, 3],
+            sample_every: 40_009,
+        };
+        // cost estimate per type (number of documents x edits), biggest first, so the long ones start early
         let costs: Vec<std::sync::atomic::AtomicU64> = tys.iter().map(|_| std::sync::atomic::AtomicU64::new(0)).collect();
-        par_range(if part_on("A") { tys.len() } else { 0 }, |i| {
+        par_range(tys.len(), |i| {
             let mut ch = Chooser::enumerating();
-            let mut cases = 0u64;
-            let mut tapes = 0u64;
+            let (mut cases, mut tapes) = (0u64, 0u64);
             loop {
                 ch.rewind();
-                let mut b = Builder::new(&mut ch, false, 2);
+                let mut b = cfg.builder(&mut ch);
                 let _ = b.build(&tys[i]);
-                cases += 2 * (1 + b.sites.iter().map(|s| s.edits.len() as u64).sum::<u64>());
+                cases += flows.len() as u64 * (1 + b.sites.iter().map(|s| s.edits.len() as u64).sum::<u64>());
                 tapes += 1;
                 if !ch.next_tape() || tapes >= TAPE_CAP {
                     break;
@@ -746,42 +900,52 @@ fn main() {
             }
             costs[i].store(cases, std::sync::atomic::Ordering::Relaxed);
         });
-        let mut idx: Vec<usize> = (0..tys.len()).collect();
-        idx.sort_by_key(|&i| std::cmp::Reverse(costs[i].load(std::sync::atomic::Ordering::Relaxed)));
-        run.count("exhaustive/planned_cases", costs.iter().map(|c| c.load(std::sync::atomic::Ordering::Relaxed)).sum());
-        idx
-    };
-    vcore::run::par_range_chunk(if part_on("A") { tys.len() } else { 0 }, 1, |k| {
-        let i = order[k];
-        let ty = &tys[i];
-        let mut lo = LeafOracle::default();
-        let mut loc = Local::default();
-        let mut ch = Chooser::enumerating();
-        let mut tapes = 0u64;
-        loop {
-            run_tape(
-                &run, &mut lo, &mut loc, ty, &mut ch, false, 2, &[false, true], &ro, &Runner::Seed, "seed", "exhaustive",
-                |_| None, 4001,
-            );
-            tapes += 1;
-            if !ch.next_tape() {
-                break;
-            }
-            if tapes >= TAPE_CAP {
-                loc.count("exhaustive/truncated_types");
-                truncated.fetch_add(1, std::sync::atomic::Ordering::Relaxed);
-                break;
-            }
+        let mut order: Vec<usize> = (0..tys.len()).collect();
+        order.sort_by_key(|&i| std::cmp::Reverse(costs[i].load(std::sync::atomic::Ordering::Relaxed)));
+        let planned: u64 = costs.iter().map(|c| c.load(std::sync::atomic::Ordering::Relaxed)).sum();
+        run.count(&format!("exhaustive/{name}/planned_documents_x_edits_x_layouts"), planned);
+        eprintln!("part {name}: {} types, {} planned cases, at {:.1}s", tys.len(), planned, run.elapsed_s());
+        if std::env::var("C05_PLAN_ONLY").is_ok() {
+            continue;
         }
-        loc.add("exhaustive/documents", tapes);
-        loc.add("leaf_oracle_calls", lo.calls);
-        loc.flush(&run);
-    });
+        vcore::run::par_range_chunk(tys.len(), 1, |k| {
+            let ty = &tys[order[k]];
+            let mut lo = LeafOracle::default();
+            let mut loc = Local::default();
+            let mut ch = Chooser::enumerating();
+            let mut tapes = 0u64;
+            loop {
+                run_tape(&run, &mut lo, &mut loc, ty, &mut ch, &cfg, |_| None);
+                tapes += 1;
+                if !ch.next_tape() {
+                    break;
+                }
+                if tapes >= TAPE_CAP {
+                    loc.count("exhaustive/truncated_types");
+                    truncated.fetch_add(1, std::sync::atomic::Ordering::Relaxed);
+                    break;
+                }
+            }
+            loc.add(&format!("exhaustive/{name}/documents"), tapes);
+            loc.add("leaf_oracle_calls", lo.calls);
+            loc.flush(&run);
+        });
+        scope_lines.push(format!(
+            "[{name}] all types with <= {max_nodes} nodes of {} x every matching document{} x every single near-miss edit at every site x layouts {:?} (flow?), read under default options, duplicate-key/-field edits also under LastWins and FirstWins",
+            if std::ptr::eq(*grammar, &small) {
+                "the small grammar (leaves i32, String, (), unit-only enum; unary Option / newtype / Vec / Map<String,_> / struct{f0} (+deny_unknown_fields) / enum{V0|V1(T)} / enum{V0|V1{f0:T}}; binary tuple / tuple struct / struct{f0,f1} (+deny) / enum{V0|V1(T,U)})"
+            } else {
+                "the full shape grammar of vcore::ty::TyGrammar::full() (leaves bool, i32, f64, char, String, (), unit struct, unit-only enum; the same constructors plus Map with String / i32 / bool / char / tuple / struct keys)"
+            },
+            if *woven { " with every placement of an alias (a Vec item / Map value replaced by an alias of an earlier one) and every merge-key form (`<<: {..}`, `<<: [{..},{..}]`, anchored `<<: &m {..}` / `<<: *m`, with and without an overridden entry, at front / middle / end)" } else { "" },
+            flows
+        ));
+    }
 
-    // ---- part B: random schemas of depth <= 3 / 4
-    let n_types = tier.pick(6_000, 80_000);
+    // ---- part B: random schemas of depth <= 3 / 4, half of them with aliases and merge keys, random option vector
+    eprintln!("parts A done at {:.1}s", run.elapsed_s());
+    let n_types = tier.pick(60_000, 600_000);
     let depth = tier.pick(3, 4);
-    eprintln!("part A done at {:.1}s", run.elapsed_s());
     par_range(if part_on("B") { n_types } else { 0 }, |i| {
         let mut rng = Rng::stream(run.seed, i as u64);
         let cfg = TyCfg { nullable_in_option: rng.chance(1, 8), ..TyCfg::default() };
@@ -792,37 +956,66 @@ fn main() {
         loc.count(&format!("random/type_depth:{}", ty.depth()));
         for j in 0..4u64 {
             let mut ch = Chooser::random(Rng::stream(run.seed ^ 0x5EED, (i as u64) * 8 + j));
-            let flow = rng.chance(1, 3);
+            let flow = [rng.chance(1, 3)];
             let ro = RenderOpts { indent: *rng.pick(&[1usize, 2, 4]), brk: "\n", compact: rng.bool() };
             let mut erng = Rng::stream(run.seed ^ 0xED17, (i as u64) * 8 + j);
-            run_tape(
-                &run, &mut lo, &mut loc, &ty, &mut ch, true, 3, &[flow], &ro, &Runner::Seed, "seed", "random",
-                |n| Some((0..n.min(6)).map(|_| erng.below(n.max(1))).filter(|_| n > 0).collect()),
-                20011,
-            );
+            let woven = rng.bool();
+            let ov = [if rng.chance(1, 2) { 0 } else { rng.below(OPT_NAMES.len()) }];
+            let tcfg = TapeCfg {
+                rich: true,
+                max_len: 3,
+                aliases: woven,
+                merges: woven,
+                flows: &flow,
+                ro: &ro,
+                runner: &seed_runner,
+                mode: "seed",
+                part: "random",
+                ovs: &ov,
+                dup_ovs: &[2, 3],
+                sample_every: 200_003,
+            };
+            run_tape(&run, &mut lo, &mut loc, &ty, &mut ch, &tcfg, |n| {
+                Some((0..n.min(6)).map(|_| erng.below(n.max(1))).filter(|_| n > 0).collect())
+            });
         }
         loc.add("leaf_oracle_calls", lo.calls);
         loc.flush(&run);
     });
 
-    // ---- part C: real derived types through from_str, same oracle
-    let fam = derived::family();
-    let n_derived = tier.pick(1_500, 20_000);
+    // ---- part C: real derived types through from_str_with_options, same oracle
     eprintln!("part B done at {:.1}s", run.elapsed_s());
+    let fam = derived::family();
+    let n_derived = tier.pick(12_000, 100_000);
     par_range(if part_on("C") { fam.len() * n_derived } else { 0 }, |idx| {
         let d = &fam[idx % fam.len()];
         let mut rng = Rng::stream(run.seed ^ 0xDE71, idx as u64);
         let mut lo = LeafOracle::default();
         let mut loc = Local::default();
         let mut ch = Chooser::random(Rng::stream(run.seed ^ 0xD0C5, idx as u64));
-        let flow = rng.chance(1, 3);
+        let flow = [rng.chance(1, 3)];
         let ro = RenderOpts { indent: *rng.pick(&[2usize, 4]), brk: "\n", compact: rng.bool() };
         let mode = format!("derived:{}", d.name);
-        run_tape(
-            &run, &mut lo, &mut loc, &d.ty, &mut ch, true, 3, &[flow], &ro, &Runner::Derived(d), &mode, "derived",
-            |n| Some((0..n.min(8)).map(|_| rng.below(n.max(1))).filter(|_| n > 0).collect()),
-            10007,
-        );
+        let runner = Runner::Derived(d);
+        let woven = rng.bool();
+        let ov = [if d.buffered || rng.chance(1, 2) { 0 } else { rng.below(OPT_NAMES.len()) }];
+        let tcfg = TapeCfg {
+            rich: true,
+            max_len: 3,
+            aliases: woven,
+            merges: woven,
+            flows: &flow,
+            ro: &ro,
+            runner: &runner,
+            mode: &mode,
+            part: "derived",
+            ovs: &ov,
+            dup_ovs: if d.buffered { &[] } else { &[2, 3] },
+            sample_every: 100_003,
+        };
+        run_tape(&run, &mut lo, &mut loc, &d.ty, &mut ch, &tcfg, |n| {
+            Some((0..n.min(8)).map(|_| rng.below(n.max(1))).filter(|_| n > 0).collect())
+        });
         loc.flush(&run);
     });
 
@@ -834,7 +1027,8 @@ fn main() {
         payloads.extend(container_payloads());
         run.count("notations/payload_pool", payloads.len() as u64);
         run.count("notations/payload_types", ptys.len() as u64);
-        par_range(if part_on("D") { ptys.len() } else { 0 }, |i| {
+        par_range(if part_on("D") { ptys.len() * 4 } else { 0 }, |w| {
+            let (i, ctx) = (w / 4, w % 4);
             let ety = notation_enum(ptys[i].clone());
             let mut lo = LeafOracle::default();
             let mut loc = Local::default();
@@ -842,16 +1036,16 @@ fn main() {
             let variants: &[usize] = if i == 0 { &[0, 1, 2, 3] } else { &[1] };
             for &v in variants {
                 for p in &payloads {
-                    for ctx in 0..4 {
-                        for flow in [false, true] {
-                            check_notations(&run, &mut lo, &mut loc, &ety, v, p, ctx, flow, &ro, "notations");
+                    for flow in [false, true] {
+                        for ov in [0, 1] {
+                            check_notations(&run, &mut lo, &mut loc, &ety, v, p, ctx, flow, ov, &ro, "notations");
                         }
                     }
                 }
             }
             loc.flush(&run);
         });
-        let n_rand = tier.pick(4_000, 60_000);
+        let n_rand = tier.pick(40_000, 400_000);
         par_range(if part_on("D") { n_rand } else { 0 }, |i| {
             let mut rng = Rng::stream(run.seed ^ 0x7A65, i as u64);
             let cfg = TyCfg { nullable_in_option: rng.chance(1, 8), ..TyCfg::default() };
@@ -886,29 +1080,35 @@ fn main() {
                 ch.frozen = false;
                 let ctx = rng.below(4);
                 let flow = rng.chance(1, 3);
-                check_notations(&run, &mut lo, &mut loc, &ety, 1, &node, ctx, flow, &ro, "notations-random");
+                check_notations(&run, &mut lo, &mut loc, &ety, 1, &node, ctx, flow, 0, &ro, "notations-random");
             }
             loc.flush(&run);
         });
     }
 
     let fin = Finish::new(
-        "a case counts when the schema has depth >= 2 and the document is an exact match or exactly one near-miss edit away \
-         (every generated case is, by construction); distinct by hash(type, document, runner)",
+        "a case counts when the schema has depth >= 2 and the document is an exact match, exactly one near-miss edit away \
+         (every generated case of parts A-C is, by construction), or one side of a notation pair (part D); \
+         distinct by hash(type, document, runner, option vector)",
     );
     let scope = format!(
-        "all types with <= {max_nodes} nodes of the grammar leaves {{i32, String, (), unit-only enum}}; unary Option / newtype / Vec / \
-         Map<String,_> / struct{{f0}} (+deny_unknown_fields) / enum{{V0|V1(T)}} / enum{{V0|V1{{f0:T}}}}; binary tuple / tuple struct / \
-         struct{{f0,f1}} (+deny) / enum{{V0|V1(T,U)}}  x  every matching document (Option none/some, lengths 0..=2, every variant in \
-         every notation `V`, `{{V: p}}`, `!!E V`, `!E V`, `!V`, `!V p`, optional fields present/absent, field order straight/rotated)  x  \
-         every single near-miss edit at every site  x  {{block, flow}}; in nested Vec/Map only lengths 0..=1 and for \
-         variants after the first only the notations `V` and `!V`"
+        "{}. Matching documents: Option none/some, Vec/Map lengths 0..=2 (nested: 0..=1), every variant; first variant in every \
+         notation `V`, `{{V: ~}}`, `!!E V`, `!E V`, `!V`, later unit variants `V` and `!V`, payload variants `{{V: p}}` and `!V p`; \
+         optional fields present/absent, field order straight/rotated. Plus (part D) the product 23 payload types x 57 payload nodes x \
+         4 variants x 4 parent positions x block/flow x 2 option vectors of the relation `!V P` == `{{V: P}}`",
+        scope_lines.join("; ")
     );
-    let fin = if truncated.load(std::sync::atomic::Ordering::Relaxed) == 0 && part_on("A") { fin.exhaustive(scope) } else { fin };
+    let all_a = spaces.iter().all(|(n, ..)| part_on(n));
+    let fin = if truncated.load(std::sync::atomic::Ordering::Relaxed) == 0 && all_a && std::env::var("C05_PLAN_ONLY").is_err() {
+        fin.exhaustive(scope)
+    } else {
+        fin
+    };
     let fin = fin
-    .assume("raw saphyr-parser event tree of the document is the ground truth for its shape")
-    .assume("value of a scalar for a scalar type = what the library returns for that scalar alone (leaf values are C06's subject)")
-    .assume("default Options (duplicate keys are errors)")
-    .min_nontrivial(if tier == Tier::Quick { 50_000 } else { 1_000_000 });
+        .assume("raw saphyr-parser event tree of the document is the ground truth for its shape")
+        .assume("value of a scalar for a scalar type = what the library returns for that scalar alone under the same options (leaf values are C06's subject)")
+        .assume("anchors/aliases are transparent (C02) and merge keys follow the YAML merge rule, own entries first (C03): documents with them are judged on the expanded / merged raw-parser tree")
+        .assume("duplicate keys: error under the default policy, later pair skipped under FirstWins, passed through under LastWins (derived structs then report duplicate_field)")
+        .min_nontrivial(if tier == Tier::Quick { 500_000 } else { 5_000_000 });
     run.finish(fin);
 }
